@@ -310,7 +310,18 @@ func (c *Ctx) ExploreP(scn string, bound int, share float64, policy int) *vs.Sum
 	if rem < 2*time.Second {
 		rem = 2 * time.Second
 	}
-	dl := time.Now().Add(time.Duration(float64(rem) * share))
+	d := time.Duration(float64(rem) * share)
+	// a floor: scenarios that finish early leave their time to the later ones, so a small share must not starve a
+	// slow scenario while most of the budget is still unused
+	if floor := rem / 3; d < floor {
+		if floor > 15*time.Second && c.Quick() {
+			floor = 15 * time.Second
+		}
+		if d < floor {
+			d = floor
+		}
+	}
+	dl := time.Now().Add(d)
 	s := vs.Explore(scn, vs.ExploreOpts{Bound: bound, Workers: c.Workers, Deadline: dl, Policy: policy})
 	c.fold(s)
 	return s
